@@ -19,7 +19,7 @@ def main(tier):
         PROP,
         "props.c02",
         tier,
-        7500,
+        9500,
         40000,
         rule_text='one evaluation per (input, comment-placing variant, configuration) monitored fix run; non-trivial = input has comments, lexers agree, at least one rule changed the text; distinct by case description',
         assumptions=['independent lexer defines comments / pragmas / preprocessor lines', 'rules allowed to delete comments are identified by base class (remove_comments_from_end_of_lines_bounded_by_tokens, multiline_structure family)'],
